@@ -101,6 +101,8 @@ world.INLINE.update({
     'config.py::enter_interactive_mode',
     'config.py::exit_interactive_mode',
     'config.py::_parse_context',
+    'config.py::_raise_unknown_configurable_error',
+    'config.py::_raise_unknown_reference_error',
     'selector_map.py::SelectorMap.items',
     'selector_map.py::SelectorMap.__getitem__',
     'selector_map.py::SelectorMap.__contains__',
